@@ -299,8 +299,9 @@ DAEMON_INV = ["D_AckRestoreEqualsSource", "D_FinalRestoreEqualsSource", "D_Every
 FAULT_KINDS = ["list", "open", "openmid", "write-before", "write-partial", "write-after", "delete-before", "delete-after"]
 
 
-def daemon_cases(seed, n, first_id=0, steps=(40, 90), faults="some"):
-    """faults: "none" | "some" (every third case) | "all": storage faults armed in bursts while the monitors run"""
+def daemon_cases(seed, n, first_id=0, steps=(40, 90), faults="some", loss=False):
+    """faults: "none" | "some" (every third case) | "all": storage faults armed in bursts while the monitors run
+    loss: local level-0 files vanish / are truncated under the running daemon (auto-recovery on in two cases of three)"""
     rnd = random.Random(seed * 7793 + 17)
     cases = []
     for k in range(n):
@@ -311,6 +312,9 @@ def daemon_cases(seed, n, first_id=0, steps=(40, 90), faults="some"):
             x = rnd.random()
             if with_faults and x < 0.12:
                 sched.append(["Fault", rnd.choice(FAULT_KINDS), rnd.randint(1, 3)])
+                continue
+            if loss and x < 0.05:
+                sched += [["LocalLoss", rnd.choice(["newest", "newest", "all", "corrupt"])], ["Sleep", rnd.randint(20, 120)]]
                 continue
             if x < 0.45:
                 sched.append(["AppWrite", rnd.randint(1, 6)])
@@ -358,7 +362,8 @@ def daemon_cases(seed, n, first_id=0, steps=(40, 90), faults="some"):
         cfg["daemon"] = {"monMs": rnd.choice([5, 10, 25]), "syncMs": rnd.choice([5, 10, 30]),
                          "l1Ms": 60 if fast else 150, "l2Ms": 200 if fast else 450, "snapMs": rnd.choice([250, 500, 900]),
                          "snapRetMs": rnd.choice([300, 700, 1500]), "l0RetMs": rnd.choice([50, 150, 400]), "l0CheckMs": rnd.choice([40, 90]),
-                         "shutdownMs": 3000, "validateMs": rnd.choice([0, 150]), "appAutoCkpt": rnd.choice([0, 0, 2, 8])}
+                         "shutdownMs": 3000, "validateMs": rnd.choice([0, 150]), "appAutoCkpt": rnd.choice([0, 0, 2, 8]),
+                         "autoRecover": bool(loss and k % 3 != 0)}
         cases.append({"id": first_id + k, "cfg": cfg, "sched": sched, "label": "daemon"})
     return cases
 
